@@ -568,12 +568,47 @@ def s9_command_table(ctx):
                 for e in b.succ[bb]:
                     if info["arms"].get(e.dst) == [True]:
                         guards[(e.src, e.dst)] = (lit, b.term(o[3][1]).get("resolved"))
+    # the same test as a pattern: `match name { b"DEL" => … }` compiles to a length test and one switch per byte
+    len_edges, byte_edges = {}, {}
+    for bb in sorted(b.live_blocks()):
+        t = b.term(bb)
+        info = b.switch_info(bb)
+        if not info:
+            continue
+        if info["kind"] == "bool":
+            o = peel_var(info["on"])
+            if o[0] == "bin" and o[1] == "Eq":
+                for x, y in ((o[2], o[3]), (o[3], o[2])):
+                    x = peel_var(x)
+                    if x[0] == "un" and x[1] == "PtrMetadata" and const_int(y) is not None:
+                        for e in b.succ[bb]:
+                            if info["arms"].get(e.dst) == [True]:
+                                len_edges[(e.src, e.dst)] = (origin_str(x[2]), const_int(y))
+        elif info["kind"] == "int" and t["op"].get("k") in ("move", "copy"):
+            pr = t["op"]["pl"]["p"]
+            if pr and pr[-1][0] == "ci" and not pr[-1][2]:
+                base = origin_str(b.origin_place({"l": t["op"]["pl"]["l"], "p": pr[:-1]}))
+                for e in b.succ[bb]:
+                    labs = info["arms"].get(e.dst, [])
+                    if len(labs) == 1 and labs[0] != "otherwise" and str(labs[0]).lstrip("-").isdigit():
+                        byte_edges[(e.src, e.dst)] = (base, pr[-1][1], int(labs[0]))
     for bb, var in aggs:
         # which guard edges dominate this site?
         doms = []
         for ge, (lit, res) in guards.items():
             if bb not in reach(b, [0], blocked_edges=lambda e: (e.src, e.dst) == ge):
                 doms.append((lit, res))
+        pat = {}
+        for ge, (base, n) in len_edges.items():
+            if bb not in reach(b, [0], blocked_edges=lambda e: (e.src, e.dst) == ge):
+                pat.setdefault(base, {})["len"] = n
+        for ge, (base, k, v) in byte_edges.items():
+            if bb not in reach(b, [0], blocked_edges=lambda e: (e.src, e.dst) == ge):
+                pat.setdefault(base, {})[k] = v
+        for base, d in pat.items():
+            n = d.get("len")
+            if n is not None and all(i in d for i in range(n)):
+                doms.append((bytes(d[i] for i in range(n)), "core::slice pattern"))
         want = var.upper().encode()
         good = len(doms) >= 1 and all(l.upper() == want for l, _ in doms)
         # equality must be the library's (str/Bytes) equality, not a crate-local helper
